@@ -404,6 +404,13 @@ theorem emission_first (hinv : InverseCircuitComplete) (np : Nat) (adj : Nat →
   emission_first_stabilizer hinv (graphSTab np adj) (Solver.graphSTab_good np adj hsym) (graph_indep np adj) hnp
     (fun p hp => Solver.graph_notProd np adj hirr p hp (hiso p hp))
 
+/-- **every operation of the recorded circuit acts on registers of the circuit** (any real commuting target, whenever the model returns):
+    wrappers on a qubit `< np + ne`, emissions and measure-and-resets from an emitter `< ne` onto a photon `< np`, emitter–emitter CNOTs
+    between two different emitters `< ne` -/
+theorem ops_well_formed (target : STab) (hg : target.Good) (s : Solver.St) (h : Solver.solve target = .ok s) :
+    ∀ o, o ∈ s.circ → o.WF target.n s.ne :=
+  Solver.solve_ops_wf target hg s h
+
 /-- on the linear cluster the model's circuit indeed starts every photon wire with its emission (kernel evaluation) -/
 example : (match Solver.solve (graphSTab 3 lin3adj) with
     | .ok s => (List.range 3).all fun p => match Solver.firstOn 3 p s.circ with | some (.emit _ q) => q == p | _ => false
